@@ -11,3 +11,23 @@ class ArrayTrimVisitor(ModelVisitor):
     def visit_field_scalar_array(self, f):
         f.trim_to_size()
         super().visit_field_scalar_array(f)
+
+
+class ArraySizeSaveVisitor(ModelVisitor):
+    """Records the number of elements of the random-size lists of scalars, 
+    so that a call that fails can put them back"""
+    
+    def __init__(self):
+        super().__init__()
+        self.size_l = []
+        
+    def visit_field_scalar_array(self, f):
+        if f.is_rand_sz and f.is_scalar:
+            self.size_l.append((f, len(f.field_l)))
+        super().visit_field_scalar_array(f)
+        
+    def restore(self):
+        for f,n in self.size_l:
+            if len(f.field_l) > n:
+                del f.field_l[n:]
+            f.size.set_val(len(f.field_l))
